@@ -98,3 +98,12 @@ Lemma pooled_context_refuted :
   observations (ctx_run true ths_demo sched_demo) = [[(1, 1, 0)%N; (2, 2, 1)%N]; []]
   /\ observations (ctx_run false ths_demo sched_demo) = [[(1, 1, 0)%N; (1, 1, 0)%N]; []].
 Proof. split; vm_compute; reflexivity. Qed.
+
+(* per-command state on the shared handler object is refuted: the stranger's command (connection 3) captures its identity, the
+   party's command (connection 1) is dispatched, the stranger's handler then reads identity 1 for its party check *)
+Definition ths_shared_demo : list (ctxval * list action) :=
+  [((3, 3, 0)%N, [ALook; ALook]); ((1, 1, 1)%N, [ALook])].
+Lemma shared_handler_field_refuted :
+  observations (ctx_run_shared ths_shared_demo [0; 0; 1; 0]) = [[(3, 3, 0)%N; (1, 1, 1)%N]; []]
+  /\ observations (ctx_run false ths_shared_demo [0; 0; 1; 0]) = [[(3, 3, 0)%N; (3, 3, 0)%N]; []].
+Proof. split; vm_compute; reflexivity. Qed.
